@@ -601,6 +601,8 @@ impl Expansion<'_> {
                         Some(parse_quote! { #ty: derive_more::core::fmt::#trait_ident })
                     }));
                 }
+                // Explicitly specified bounds apply with or without a format literal.
+                bounds.extend(self.attrs.common.bounds.0.clone());
                 has_shared_attr
             }
         };
